@@ -54,7 +54,7 @@ func init() {
 			}
 			nSys := len(paths) * len(gen.Battery)
 			return &harness.Plan{
-				N:     nSys + size(tier, 40000, 800000),
+				N:     nSys + size(tier, 100000, 1500000),
 				Setup: func(c *harness.Ctx) { hooksOn() },
 				Run: func(c *harness.Ctx, k int) {
 					var p *spec.Path
